@@ -632,7 +632,7 @@ def dump_node(n: Any) -> list:  # noqa: PLR0911, PLR0912, PLR0915
         for w in n.whens:
             out.append(tag(w.token, "when", ("HWhen", [dump_prim(e) for e in w.expression.expressions])))
             out += dump_nodes(w.block.nodes)
-        if n.default:
+        if n.default is not None:  # never the truthiness of a block: an empty block is a block
             out.append(tag(n.default.token, "else"))
             out += dump_nodes(n.default.nodes)
         return out + [tag(n.end_tag_token, "endcase")]
@@ -649,7 +649,7 @@ def dump_node(n: Any) -> list:  # noqa: PLR0911, PLR0912, PLR0915
     if cls in ("ForNode", "TablerowNode"):
         name = "for" if cls == "ForNode" else "tablerow"
         out = [tag(n.token, name, ("HLoop", dump_loop(n.expression)))] + dump_nodes(n.block.nodes)
-        if getattr(n, "default", None):
+        if getattr(n, "default", None) is not None:
             out.append(tag(n.default.token, "else"))
             out += dump_nodes(n.default.nodes)
         return out + [tag(n.end_tag_token, "end" + name)]
@@ -661,7 +661,7 @@ def dump_node(n: Any) -> list:  # noqa: PLR0911, PLR0912, PLR0915
         for alt in n.alternatives:
             out.append(tag(alt.token, "elsif", ("HBool", dump_bool(alt.expression))))
             out += dump_nodes(alt.block.nodes)
-        if n.default:
+        if n.default is not None:  # never the truthiness of a block: an empty block is a block
             out.append(tag(n.default.token, "else"))
             out += dump_nodes(n.default.nodes)
         return out + [tag(n.end_tag_token, "end" + name)]
@@ -676,7 +676,7 @@ def dump_node(n: Any) -> list:  # noqa: PLR0911, PLR0912, PLR0915
     if cls == "TranslateNode":
         out = [tag(n.token, "translate", ("HKwargs", kw_pairs(n.args.values())))]
         out += dump_nodes(n.singular_block.block.nodes)
-        if n.plural_block:
+        if n.plural_block is not None:
             out.append(tag(n.plural_block.block.token, "plural"))
             out += dump_nodes(n.plural_block.block.nodes)
         return out + [tag(n.end_tag_token, "endtranslate")]
@@ -1367,6 +1367,74 @@ def pickle_meta_oracle(shop: bool, src: str, variant: int) -> tuple[str, str, di
     return ("", "", info)
 
 
+EDGE_TEXTS = ["yes ", " no", " \n mid \n ", "x", "\t", " "]
+MARKS = ["", "-", "~", "+"]
+
+
+def empty_branch_templates(r: Any, per_subset: int) -> list[tuple[str, list[dict[str, Any]]]]:
+    """Every block tag with each subset of its branches EMPTY (no content at
+    all), whitespace-control markers on the branch tags, whitespace-edged text
+    in the other branches and around the block, and data selecting each
+    branch. An empty branch still has a tag, and the tag's markers trim its
+    neighbours: dropping the tag of an empty branch changes the output."""
+    out: list[tuple[str, list[dict[str, Any]]]] = []
+
+    def mk(name: str, marks: tuple[str, str] | None = None) -> str:
+        l, rr = marks if marks is not None else (r.choice(MARKS), r.choice(MARKS))
+        return "{%" + l + " " + name + " " + rr + "%}"
+
+    sharp = [False]
+
+    def body(empty: bool) -> str:
+        if empty:
+            return ""
+        # in the sharp layout the text ends in blanks that only the next tag's `-` removes
+        return r.choice(["yes ", " \n mid \n ", "no \n"]) if sharp[0] else r.choice(EDGE_TEXTS)
+
+    def frame(inner: str) -> str:
+        return r.choice(["A ", "A\n", "A", " "]) + inner + r.choice([" |", "\n|", "|", " "])
+
+    if_data = [{"x": True, "y": True}, {"x": False, "y": True}, {"x": False, "y": False}, {}]
+    case_data = [{"n": 1}, {"n": 2}, {"n": 3}, {}]
+    for_data = [{"items": [1, 2]}, {"items": []}, {"items": "ab"}, {}]
+    for kind in ("if", "unless"):
+        for mask in range(8):
+            e = [bool(mask & 1), bool(mask & 2), bool(mask & 4)]
+            for k in range(per_subset):
+                # k == 0: the sharpest case, a lone marker on the left of each branch tag
+                m = (lambda: ("-", "")) if k == 0 else (lambda: None)
+                sharp[0] = k == 0
+                src = frame(mk(f"{kind} x", m()) + body(e[0]) + mk("elsif y", m()) + body(e[1])
+                            + mk("else", m()) + body(e[2]) + mk("end" + kind, None if k else ("", "")))
+                out.append((src, if_data))
+                if k == 1:  # no elsif
+                    out.append((frame(mk(f"{kind} x") + body(e[0]) + mk("else", ("-", "")) + body(e[2])
+                                      + mk("end" + kind, ("", ""))), if_data))
+    for mask in range(8):
+        e = [bool(mask & 1), bool(mask & 2), bool(mask & 4)]
+        for k in range(per_subset):
+            m = (lambda: ("-", "")) if k == 0 else (lambda: None)
+            sharp[0] = k == 0
+            src = frame(mk("case n") + r.choice(["", " ", "\n"]) + mk("when 1", m()) + body(e[0])
+                        + mk("when 2, 'b'", m()) + body(e[1]) + mk("else", m()) + body(e[2])
+                        + mk("endcase", None if k else ("", "")))
+            out.append((src, case_data))
+    for mask in range(4):
+        e = [bool(mask & 1), bool(mask & 2)]
+        for k in range(per_subset):
+            m = (lambda: ("-", "")) if k == 0 else (lambda: None)
+            sharp[0] = k == 0
+            src = frame(mk("for i in items", m()) + body(e[0]) + mk("else", m()) + body(e[1])
+                        + mk("endfor", None if k else ("", "")))
+            out.append((src, for_data))
+    # blocks without branches: empty body between marked tags
+    for k in range(per_subset):
+        for open_, close in (("capture z", "endcapture"), ("with k: 1", "endwith"), ("macro f", "endmacro"),
+                             ("block b", "endblock"), ("raw", "endraw"), ("comment", "endcomment")):
+            out.append((frame(mk(open_) + mk(close)), [{}, {"x": 1}]))
+    return out
+
+
 class Obj:
     """A plain object with attributes (templates must not see them)."""
 
@@ -1713,6 +1781,27 @@ def main(chk: C.Check, build: C.Build) -> None:  # noqa: PLR0912, PLR0915
                 tpl_samples.append({"source": src, "str": info["str"], "outputs": info["outs"][:2]})
 
     # ---- known findings: re-observe the recorded witnesses
+    # ---- empty branches: the tag of a content-free branch must survive str()
+    eb = empty_branch_templates(r, 24 if thorough else 4)
+    eb_ok = eb_trim = 0
+    for src, datas in eb:
+        res = oracle(envs[False], src, datas)
+        if res is None:
+            chk.notes.append("empty-branch template does not parse: " + repr(src)[:120])
+            continue
+        sig, what, info = res
+        if sig:
+            chk.finding(sig, what + " (empty-branch family)",
+                        {**info, "how": "harness/c12.py empty_branch_templates + oracle"})
+            continue
+        eb_ok += 1
+        c = template_case(envs[False].from_string(src), src)
+        if c:
+            items.append(c)
+        # did whitespace control of a branch tag matter? (some output lacks blanks that the source has)
+        if len({o for o in info["outs"]}) > 1:
+            eb_trim += 1
+
     for sig, src, what in KNOWN_WITNESSES:
         res = oracle(envs[True], src, data_sets(r))
         if res is not None and res[0]:
@@ -1722,7 +1811,7 @@ def main(chk: C.Check, build: C.Build) -> None:  # noqa: PLR0912, PLR0915
     C.proofs_verdict(chk, proofs_ok)
 
     chk.coverage.update({
-        "evaluations": len(exprs) + len(tpls),
+        "evaluations": len(exprs) + len(tpls) + len(eb),
         "distinct_nontrivial": len(nontrivial) + len(tpl_nontrivial),
         "rule": ("expression sources (filtered/ternary, Boolean, loop expressions) generated from a grammar with "
                  "random layout (quote kind, escapes, bracket vs dot segments, redundant or minimal parentheses, "
@@ -1746,6 +1835,9 @@ def main(chk: C.Check, build: C.Build) -> None:  # noqa: PLR0912, PLR0915
                          "mutated token streams": n_mut, "mechanisms": dict(sorted(dist.items())),
                          "templates": len(tpls), "templates not parseable (skipped)": t_noparse,
                          "templates passing the oracle": t_ok,
+                         "empty-branch templates (if/unless/case/for with each subset of branches empty, "
+                         "markers on branch tags) passing the oracle": eb_ok,
+                         "... whose output differs between the data sets selecting different branches": eb_trim,
                          "templates with a `not` >= 2 infix levels down the right spine of a left operand": t_deep_not,
                          "templates pickled with overlay data, globals, name, path, uptodate": t_meta,
                          "... whose output on empty data depends on overlay data / template globals": t_meta_used,
